@@ -22,6 +22,11 @@ use std::io::{BufRead, BufReader, BufWriter, Write};
 static GLOBAL: observe::Counting = observe::Counting;
 
 /// bytes of `[{"lit":[..],"fill":[base,step,n]}, ...]`: literal, then (base + i*step) % 256
+/// a JSON array of small integers as bytes
+pub fn nums(v: &Value) -> Vec<u8> {
+    v.as_array().map(|a| a.iter().map(|x| x.as_u64().unwrap_or(0) as u8).collect()).unwrap_or_default()
+}
+
 pub fn bytes_of(parts: &Value) -> Vec<u8> {
     let mut out = Vec::new();
     if let Some(a) = parts.as_array() {
@@ -102,6 +107,7 @@ fn main() {
         "run" => cmd_run(&args[2..]),
         "fuzz" => fuzz::cmd_fuzz(&args[2..]),
         "dfuzz" => fuzz::cmd_dfuzz(&args[2..]),
+        "lensweep-robust" => fuzz::cmd_lensweep_robust(&args[2..]),
         "exhaust2" => fuzz::cmd_exhaust2(&args[2..]),
         "locality" => fuzz::cmd_locality(&args[2..]),
         "defrag" => defrag::cmd_defrag(&args[2..]),
